@@ -41,6 +41,11 @@ def designations(p, name):
     if n <= 11:
         out.append(("variable(n)[i]", numpoly.variable(n)[int(name[1:])] if n > 1 else numpoly.variable(1)))
     out.append(("p.indeterminants[i]", p.indeterminants[i]))
+    sym = numpoly.symbols(name)
+    # the same indeterminate carried by polynomials with an explicit zero constant term / foreign unused names
+    out.append(("polynomial([1, sym])[1]", numpoly.polynomial([1, sym])[1]))
+    out.append(("sym + 0", sym + 0))
+    out.append(("align_polynomials(sym, p)[0]", numpoly.align_polynomials(sym, p)[0] if not p.shape else numpoly.align_exponents(sym, p)[0]))
     return out
 
 
@@ -88,7 +93,7 @@ def check_poly(R, sp, lab, cfgs, seqlen=2, desig_kinds=None):
                     # every designation kind in every position, others by name (plus the all-same-kind diagonal)
                     combos = set()
                     for pos in range(k):
-                        for j in range(len(dlists[pos])):
+                        for j in range(len(dlists[pos]) if k == 1 else min(5, len(dlists[pos]))):
                             combos.add(tuple(j if q == pos else 0 for q in range(k)))
                     for j in range(min(len(d) for d in dlists)):
                         combos.add(tuple(j for _ in range(k)))
@@ -138,8 +143,10 @@ def run_case(case, R):
     if k == "u0":
         t = space.U0()[case["i"]]
         R.state(("u0", case["i"]))
-        check_poly(R, space.scalar_spec(("q0", "q1"), t), str(t), CONFIGS, seqlen=2)
-        R.sample({"polynomial": str(t), "configs": 16})
+        # all 16 configurations for every third polynomial, a rotating third of them for the others
+        cfgs = CONFIGS if case["i"] % 3 == 0 else CONFIGS[case["i"] % 3::3]
+        check_poly(R, space.scalar_spec(("q0", "q1"), t), str(t), cfgs, seqlen=2)
+        R.sample({"polynomial": str(t), "configs": len(cfgs)})
     elif k == "u3":
         t = U3()[case["i"]]
         R.state(("u3", case["i"]))
